@@ -250,6 +250,7 @@ Proof.
     destruct (validate Subst (SList es ty len mnl mxl) [] v) eqn:EV; [|discriminate].
     destruct v as [| | | | | | | | |l| | | |]; try discriminate.
     destruct (negb (length l =? 0) && forallb is_vell l); [discriminate|].
+    destruct (existsb is_vell (removelast (tl l))); [discriminate|].
     cbn [wf] in Hwf. apply andb_true_iff in Hwf as [Hwes Hwty].
     assert (HPl : Forall (fun x => plain x = true /\ vwf x = true) l).
     { apply Forall_forall. intros x Hx. split; [eapply plain_list_In | eapply vwf_list_In]; eauto. }
